@@ -361,3 +361,136 @@ STREAMS = {
     'forwards_rand': forwards_rand, 'forwards_exh': forwards_exh,
     'meta_rand': meta_rand, 'meta_post': meta_post,
 }
+
+
+# ----------------------------------------------------------------------------- value-level calls (C12, C20)
+def value_calls(ps, extra_pos=1, foreign=('z',), maxk=None):
+    """all value-level calls: n positional tokens 100.., every subset of keyword names with values 200+id"""
+    npos = sum(1 for p in ps if p[1] in ('po', 'pk'))
+    pool = [p[0] for p in ps] + list(foreign)
+    for n in range(npos + extra_pos + 1):
+        args = tuple(100 + i for i in range(n))
+        for r in range(len(pool) + 1):
+            if maxk is not None and r > maxk:
+                break
+            for K in itertools.combinations(pool, r):
+                yield args, tuple((k, 200 + core.NAMES.id(k)) for k in K)
+
+
+def bindcall(tier, seed, ci, nc):
+    """the value-level binding model against really calling def functions"""
+    univ = U('ab', 2) if tier == 'quick' else U('abc', 3)
+
+    def gen():
+        for ps in univ:
+            ps = tuple(P(p[0], p[1], (3 + i if p[2] is not None else None)) for i, p in enumerate(ps))
+            for args, kw in value_calls(ps):
+                yield ('bindcall', args, kw, ps)
+    return _slice(gen(), ci, nc)
+
+
+def callsig(tier, seed, ci, nc):
+    univ = U('ab', 2) if tier == 'quick' else U('abc', 3)
+
+    def gen():
+        for ps in univ:
+            ps = tuple(P(p[0], p[1], (3 + i if p[2] is not None else None)) for i, p in enumerate(ps))
+            for args, kw in value_calls(ps, extra_pos=2):
+                yield ('bindcallsig', args, kw, ps)
+    return _slice(gen(), ci, nc)
+
+
+def makeup(tier, seed, ci, nc):
+    univ = U('ab', 2) if tier == 'quick' else U('abc', 3)
+
+    def gen():
+        for ps in univ:
+            for nextra in (0, 1, 2):
+                yield ('makeup', nextra, ps)
+    return _slice(gen(), ci, nc)
+
+
+def _pw_space(ps, with_bad=True):
+    """every assignment name -> none / posoarg / kwoarg over the named parameters, plus inadmissible
+    selections (unknown name, star parameter, both kinds at once)"""
+    nmd = [p[0] for p in ps if p[1] in ('po', 'pk', 'ko')]
+    for assign in itertools.product((0, 1, 2), repeat=len(nmd)):
+        Pn = tuple(n for n, a in zip(nmd, assign) if a == 1)
+        Wn = tuple(n for n, a in zip(nmd, assign) if a == 2)
+        yield Pn, Wn
+    if with_bad:
+        stars = [p[0] for p in ps if p[1] in ('vp', 'vk')]
+        for bad in ['zz'] + stars:
+            yield (bad,), ()
+            yield (), (bad,)
+        if nmd:
+            yield (nmd[0],), (nmd[0],)
+            yield (nmd[0], 'zz'), ()
+
+
+def _dist_defaults(ps):
+    return tuple(P(p[0], p[1], (3 + i if p[2] is not None else None)) for i, p in enumerate(ps))
+
+
+def pok(tier, seed, ci, nc, sample=None):
+    """kwoargs/posoargs: advertised signature and every value-level call, function and bound method"""
+    if tier == 'quick':
+        univ = [s for s in U('ab', 2)]
+        rng = _rng(seed, 'pok', 0)
+        big = [s for s in U('abc', 3) if sum(1 for p in s if p[1] == 'pk') >= 2]
+        univ = univ + rng.sample(big, 150)
+    else:
+        univ = U('abc', 3)
+
+    def gen():
+        for ps in univ:
+            ps = _dist_defaults(ps)
+            for Pn, Wn in _pw_space(ps):
+                yield ('prepare', Pn, Wn, ps)
+                for args, kw in value_calls(ps, maxk=3):
+                    yield ('deccall', Pn, Wn, args, kw, ps)
+    return _slice(gen(), ci, nc)
+
+
+def pokm(tier, seed, ci, nc):
+    """the same through the descriptor: bound methods"""
+    univ = U('ab', 2)
+    if tier != 'quick':
+        rng = _rng(seed, 'pokm', 0)
+        univ = univ + rng.sample(U('abc', 3), 300)
+
+    def gen():
+        for ps in univ:
+            ps = _dist_defaults(ps)
+            if any(p[1] == 'po' for p in ps):
+                continue      # `self` is positional-or-keyword and must come first
+            for Pn, Wn in _pw_space(ps, with_bad=False):
+                for args, kw in value_calls(ps, maxk=2):
+                    yield ('deccallm', Pn, Wn, args, kw, ps)
+    return _slice(gen(), ci, nc)
+
+
+def poknames(tier, seed, ci, nc):
+    """the start= / end= / autokwoargs(exceptions=) forms"""
+    univ = U('abc', 3)
+
+    def gen():
+        for ps in univ:
+            ps = _dist_defaults(ps)
+            nmd = [p[0] for p in ps] + ['zz']
+            for st in nmd:
+                yield ('startnames', st, (), ps)
+                yield ('endnames', st, (), ps)
+            for st in nmd[:2]:
+                for ex in nmd[:3]:
+                    if ex != st:
+                        yield ('startnames', st, (ex,), ps)
+                        yield ('endnames', st, (ex,), ps)
+            for r in range(0, 3):
+                for ex in itertools.combinations(nmd, r):
+                    yield ('autonames', ex, ps)
+    return _slice(gen(), ci, nc)
+
+
+STREAMS.update({'bindcall': bindcall, 'callsig': callsig, 'makeup': makeup, 'pok': pok, 'pokm': pokm,
+                'poknames': poknames})
